@@ -3,12 +3,12 @@
    the property's executable form on the implementation's own outputs.
 
    case     = ((events raws) (outs gouts))
-   event    = (0 g step) New | (1 g a c) Init | (2 g a c) Next | (3 g) Crash
+   event    = (0 g step) New | (1 g a c) Init | (2 g a c) Next | (4 g a c) MustNext | (3 g) Crash
               a = 0 StoreOk c | 1 StoreErrBefore | 2 StoreErrAfter c   (the scripted store's answer)
    out      = (kind value asked)   kind 0 nothing, 1 Init ok, 2 id, 3 the store's error,
                                    4 "integer overflow" error, 5 anything else, 6 the call
                                    never returned (blocked on the generator's mutex for good);
-                                   asked = 1 iff Storage.Incr was called during the event
+                                   asked = number of Storage.Incr calls during the event (0, 1; more is a failure)
    raws     = raw counter values fed to a store adapter's guard, gouts = ((ok value) ...)
    A second case shape carries concurrent scenarios, see check_concurrent. *)
 From Coq Require Import ZArith List Bool.
@@ -28,6 +28,9 @@ Definition event_of (s : sx) : option event :=
       if g <? 0 then None else option_map (EInit (Z.to_nat g)) (ans_of a c)
   | SList [SInt 2; SInt g; SInt a; SInt c] =>
       if g <? 0 then None else option_map (ENext (Z.to_nat g)) (ans_of a c)
+  (* MustNext = Next whose error arrives as a panic (the harness maps the panic back) *)
+  | SList [SInt 4; SInt g; SInt a; SInt c] =>
+      if g <? 0 then None else option_map (ENext (Z.to_nat g)) (ans_of a c)
   | SList [SInt 3; SInt g] => if g <? 0 then None else Some (ECrash (Z.to_nat g))
   | _ => None
   end.
@@ -36,6 +39,15 @@ Definition obs_of (s : sx) : option (Z * Z * bool) :=
   match s with
   | SList [SInt k; SInt v; SInt a] => Some (k, v, negb (a =? 0))
   | _ => None
+  end.
+
+(* the third component of an observed outcome counts the Storage.Incr calls of the operation;
+   the anchored code makes at most one per Init / Next / MustNext / NextID: a second one means a
+   failed store call was retried behind the caller's back instead of surfacing as the error *)
+Definition single_store_call (s : sx) : bool :=
+  match s with
+  | SList [SInt _; SInt _; SInt a] => a <=? 1
+  | _ => true
   end.
 
 Definition gout_of (s : sx) : option (option Z) :=
@@ -228,27 +240,31 @@ Definition guard_checks (raws : list Z) (gouts : list (option Z)) : verdict :=
                     (VPropFail 7))
         (check_that (list_eqb opt_eqb (guard_run 0 raws) gouts) (VMismatch 3)).
 
-(* a concurrent scenario: input = (9 seed ngen callers each step delay), observed =
+(* a concurrent (9 ...) or gated (7 ...: the harness's store decides when each store call
+   returns) scenario: input = the scenario's parameters, observed =
    (events outs) — the history as linearised by the harness (order of the store's tickets and,
    inside a segment, of the ids) with what every call returned.  The model must reproduce the
    observed values call by call, and the property is evaluated on them. *)
 Definition check_concurrent (evs outs : list sx) : verdict :=
   match map_opt event_of evs, map_opt obs_of outs with
   | Some h, Some obs =>
-      if Nat.eqb (length h) (length obs) then vjoin (prop h obs) (corr h obs) else VBad
+      if Nat.eqb (length h) (length obs)
+      then vjoin (check_that (forallb single_store_call outs) (VPropFail 5)) (vjoin (prop h obs) (corr h obs))
+      else VBad
   | _, _ => VBad
   end.
 
 Definition check (c : sx) : verdict :=
   match c with
-  | SList [SList (SInt 9 :: _); SList [SList evs; SList outs]] => check_concurrent evs outs
+  | SList [SList (SInt _ :: _); SList [SList evs; SList outs]] => check_concurrent evs outs
   | SList [SList (SList evs :: SList raws :: _); SList [SList outs; SList gouts]] =>
       (* an optional third input component marks a history driven through the package-level
          API (uuid.Init / uuid.NextID); it is judged like any other *)
       match map_opt event_of evs, map_opt obs_of outs, map_opt sx_int raws, map_opt gout_of gouts with
       | Some h, Some obs, Some rw, Some go =>
           if Nat.eqb (length h) (length obs) then
-            vjoin (prop h obs) (vjoin (guard_checks rw go) (corr h obs))
+            vjoin (check_that (forallb single_store_call outs) (VPropFail 5))
+                  (vjoin (prop h obs) (vjoin (guard_checks rw go) (corr h obs)))
           else VBad
       | _, _, _, _ => VBad
       end
